@@ -16,4 +16,20 @@ run 503213e C04
 run b2d5f57 C03
 run 903a597 C14
 run ca0ad29 C08
+run ab8a88a C08
+run ba78ae7 C16
+# F7 (1daf074) cannot be reverted textually any more (later commits touch the same lines): the same defect is re-introduced by hand
+cat > /tmp/m_time_seed.diff <<'EOP'
+--- a/src/util/util.cpp
++++ b/src/util/util.cpp
+@@ -47,7 +47,7 @@ static boost::mt19937 seededGenerator() {
+     std::random_device rd;
+     std::vector<uint32_t> words(8);
+     for (auto &w : words) {
+-        w = rd();
++        w = static_cast<uint32_t>(time(0)) + static_cast<uint32_t>(&w - &words[0]);
+     }
+     std::seed_seq seq(words.begin(), words.end());
+     boost::mt19937 gen;
+EOP
 echo "=== time-seed mutant -> C12"; KEEP=/verif/replays/fixed/1daf074 TAIL=4 tools/try_patch.sh /tmp/m_time_seed.diff C12 quick
